@@ -8,6 +8,7 @@ pub mod c04;
 pub mod c06;
 pub mod c08;
 pub mod c10;
+pub mod c16;
 pub mod c17;
 pub mod c18;
 pub mod c19;
@@ -36,6 +37,7 @@ pub fn lookup(id: &str) -> Option<Prop> {
         "C06" => Prop { id: "C06", run: c06::run, replay: c06::replay, rule: c06::RULE, assumptions: COMMON_ASSUMPTIONS },
         "C08" => Prop { id: "C08", run: c08::run, replay: c08::replay, rule: c08::RULE, assumptions: COMMON_ASSUMPTIONS },
         "C10" => Prop { id: "C10", run: c10::run, replay: c10::replay, rule: c10::RULE, assumptions: COMMON_ASSUMPTIONS },
+        "C16" => Prop { id: "C16", run: c16::run, replay: c16::replay, rule: c16::RULE, assumptions: COMMON_ASSUMPTIONS },
         "C17" => Prop { id: "C17", run: c17::run, replay: c17::replay, rule: c17::RULE, assumptions: COMMON_ASSUMPTIONS },
         "C18" => Prop { id: "C18", run: c18::run, replay: c18::replay, rule: c18::RULE, assumptions: COMMON_ASSUMPTIONS },
         "C19" => Prop { id: "C19", run: c19::run, replay: c19::replay, rule: c19::RULE, assumptions: COMMON_ASSUMPTIONS },
